@@ -442,7 +442,8 @@ package engine
 //@   ensures snap: es.backtrack.store[n].programCounter == e0.programCounter && es.backtrack.store[n].currentFileOffset == e0.currentFileOffset && es.backtrack.store[n].currentMatch == e0.currentMatch && es.backtrack.store[n].status == e0.status
 //@   ensures snaploops: es.backtrack.store[n].loopStack != nil && es.backtrack.store[n].loopStack != e0.loopStack && len(es.backtrack.store[n].loopStack.store) == len(e0.loopStack.store) && es.backtrack.store[n].callStack != nil && len(es.backtrack.store[n].callStack.store) == len(e0.callStack.store)
 //@   ensures snapframe: frozen(&es.backtrack.store[n], e0)
-//@   ensures snapfresh: fresh(es.backtrack.store[n].loopStack) && fresh(es.backtrack.store[n].callStack) && fresh(es.backtrack.store[n].backtrack) && fresh(es.backtrack.store[n].variableStack) && fresh(es.backtrack.store[n].environment.Value)
+//@   ensures snapfresh: fresh(es.backtrack.store[n].loopStack) && fresh(es.backtrack.store[n].callStack) && fresh(es.backtrack.store[n].backtrack) && fresh(es.backtrack.store[n].variableStack)
+//@   ensures snapenv: fresh(es.backtrack.store[n].environment.Value) [C02]
 
 //@ pred sameLoop(es *SearchEngineState, loopId Int) := len(es.loopStack.store) > 0 && es.loopStack.store[len(es.loopStack.store) - 1].loopId == loopId && es.loopStack.store[len(es.loopStack.store) - 1].callLevel == len(es.callStack.store)
 //@ func (*SearchEngineState).INITLOOPSTACK [C03 C09 C10 C01]
